@@ -6,7 +6,10 @@ from ..astutil import (src, is_name, is_const, const_num, call_name, walk_no_nes
                        calls_in, assignments_to)
 
 EXPLANATION = (
-    "Decides only the glue between the pieces whose own structural clauses are decided under C01, "
+    "C08 is the composition of the penalties (C02/C03/C06), the degree reduction (C01), the solver (C09) and the "
+    "decoding; this check therefore evaluates the structural rule sets of those five properties as necessary "
+    "conditions of C08 (a broken component clause breaks the end-to-end guarantee) and, in addition, decides the "
+    "glue between the pieces whose own structural clauses are decided under C01, "
     "C02, C03, C06 and C09: solve_bruteforce of PCBO/PCSO resolves (MRO) to the matrix "
     "implementation that passes self.is_solution_valid, which resolves to the constraint-aware "
     "predicate rather than the always-true default; the ancilla filter of "
@@ -15,7 +18,7 @@ EXPLANATION = (
     "implementations; the reduced forms of PCBO/PCSO resolve to the reduction of C01.")
 NOT_DECIDED = ("preservation of the constrained optimum through penalisation, reduction and conversion - the "
                "composition of C01/C02/C03/C06/C09's behavioural remainders; the numeric weight threshold.")
-TRUSTED = ["C01, C02, C03, C06, C09 checks"]
+TRUSTED = ["the behavioural remainders of C01, C02, C03, C06, C09 (not decided)"]
 
 
 def rules(ctx):
@@ -97,3 +100,10 @@ def rules(ctx):
             ok = isinstance(t, FuncInfo) and t.cls.name == base
             ctx.inst('R08.4', (P.cls(c).module.relpath, c), '%s.%s' % (c, m), ok,
                      "resolves to %s.%s" % (base, m) if ok else "%s.%s resolves to %s" % (c, m, getattr(t, 'qual', t)))
+
+    # ---------------------------------------------------------------- components
+    # The end-to-end guarantee composes the guarantees of C01, C02, C03, C06 and C09; their structural
+    # clauses are necessary conditions of C08 and are evaluated here as well (same rule functions).
+    from . import C01, C02, C03, C06, C09
+    for mod in (C01, C02, C03, C06, C09):
+        mod.rules(ctx)
